@@ -137,6 +137,29 @@ def run(ctx):
                 db.append(job(pj["D"], pj["geo"], pj["mode"], ["halfax", ax, sg, c_], seeds[0], target="sphere_out"))
     st = explore(db, ["ans", "noise"], 0, sink, stats=st, name="design-boundary")
     rep.set("design_boundary_jobs", len(db))
+    # starts next to a hard bound that the library moves when it snaps them (nearest mesh node outside the box -> pulled one
+    # cell inwards): the point that is finally evaluated first is read off an unconstrained construction, and a half-space
+    # is placed between it and the start as given - the start is feasible, its image is not, so the definition must be
+    # rejected before the target is called
+    pr2 = [dict(job(D, g, "det", None, seeds[0], target="sphere_out", x0=x0k, opts=dict(o, max_fun_evals=8)), want_init_points=True, monitors=[])
+           for D in (1, 2) for g in ("log", "log2", "lin2", "log3", "lin") for x0k in ("near_ub", "near_lb", "near_ub3", "near_lb3", "ub", "lb")
+           for o in ({}, {"search_grid_number": 4}, {"search_grid_number": 2})]
+    adj = []
+    for pj, prr in zip(pr2, pmap(execute, pr2)):
+        pts = prr.get("init_points") or []
+        if not pts:
+            continue
+        given = np.ravel(P.start_point(pj["x0"], pj["geo"], pj["D"]))
+        first = np.array(pts[0])
+        for ax in range(pj["D"]):
+            if first[ax] == given[ax]:
+                continue
+            c_ = 0.5 * (first[ax] + given[ax])
+            sg = 1.0 if first[ax] > given[ax] else -1.0     # violated on the side of the evaluated image
+            adj.append(dict(job(pj["D"], pj["geo"], "det", ["halfax", ax, sg, float(c_)], seeds[0], target="sphere_out", x0=pj["x0"], opts=dict(pj["opts"])),
+                            expect="reject", cell="moved-image-infeasible/%s/%s/D%d" % (pj["geo"], pj["x0"], pj["D"])))
+    st = explore(adj, [], 0, sink, stats=st, name="moved-start-cells")
+    rep.set("moved_start_cells", len(adj))
     cells = list(start_cells(seeds[0]))
     st = explore(cells, [], 0, sink, stats=st, name="start-cells")
     sw = sweep_jobs(lambda D, m, o: job(D, "lin", m, "ball_r" if D == 2 else "half", seeds[0], target="sphere_out", opts=o), q, modes=("det", "decl"))
